@@ -44,7 +44,7 @@ func (e *engine) Info() core.Info {
 	return core.Info{
 		Prop:  "C18",
 		Level: "exploration",
-		Rule:  "a case is one seeded execution of ExtractXML: an OSM document of <=41 elements (0-12 nodes on a quarter-integer grid, 0-8 ways sharing nodes incl. closed ways and dangling refs, 0-5 relations with node/way/relation members incl. forward references, cycles and self-reference; tags from a 3x2 alphabet (one run in four: keys and values containing the character = and prefixes of one another); canonical or shuffled element order), a keep function (KeepTags with several maps, KeepBounds with a box straddling the grid, KeepAll), keepTags on/off, 1-8 workers, a scheduling strategy (round-robin, uniform, sticky, PCT priorities, long worker stalls, starve-one) deciding every interleaving at every lock/channel/spawn/join point, and XML or (1 in 25) PBF encoding, a reader/fault class (full reads; legal short and (0,nil) reads; I/O error at byte k of pass p; failing Seek; cancellation at scheduler step k); non-trivial = >=2 workers AND the model keeps at least one way or relation; distinct = distinct hash of (document, keep, schedule, faults) = the full event log",
+		Rule:  "a case is one seeded execution of ExtractXML: an OSM document of <=41 elements (0-12 nodes on a quarter-integer grid, 0-8 ways sharing nodes incl. closed ways, dangling refs and (one way in ten) ways without any node, 0-5 relations with node/way/relation members incl. forward references, cycles and self-reference; tags from a 3x2 alphabet (one run in four: keys and values containing the character = and prefixes of one another); canonical or shuffled element order), a keep function (KeepTags with several maps, KeepBounds with a box straddling the grid, KeepAll), keepTags on/off, 1-8 workers, a scheduling strategy (round-robin, uniform, sticky, PCT priorities, long worker stalls, starve-one) deciding every interleaving at every lock/channel/spawn/join point, and XML or (1 in 25) PBF encoding, a reader/fault class (full reads; legal short and (0,nil) reads; I/O error at byte k of pass p; failing Seek; cancellation at scheduler step k); non-trivial = >=2 workers AND the model keeps at least one way or relation; distinct = distinct hash of (document, keep, schedule, faults) = the full event log",
 		Real:  []string{"osm.ExtractXML / extract (pass loop, worker pool, channel, all mutex-guarded maps, processNode/Way/Relation, hasNeed*)", "osm.ExtractPBF over the same documents written by an independent PBF writer (one run in 25; paulmach/osm osmpbf decoder incl. its own, unsimulated, decoder goroutines)", "KeepTags / KeepBounds / KeepAll", "(*Data).Check, (*Data).Filter", "paulmach/osm osmxml.Scanner and encoding/xml", "golang.org/x/sync/errgroup", "real goroutines, real sync.RWMutex/Mutex and channel (only the choice of who runs is simulated)"},
 		Stubs: []string{"the io.ReadSeeker (simulated file: chunking, (0,nil) reads, injected read error, failing Seek, pass counting)", "the context (cancelled by the scheduler at a tape-chosen step)", "the worker count (tape-chosen 1-8 instead of GOMAXPROCS)", "the Go scheduler's choice of which goroutine runs next (token passing at the verif hooks)"},
 		FaultKinds: []string{
